@@ -1,10 +1,10 @@
 #!/bin/bash
-# tools/seed_sweep.sh <first-seed> <last-seed> [tier]   run every claimed check at several VERIF_SEED values; lists every non-zero exit
+# tools/seed_sweep.sh <first-seed> <last-seed> [tier]   (SWEEP_IDS="C07 C18" restricts the properties) run every claimed check at several VERIF_SEED values; lists every non-zero exit
 cd "$(dirname "$0")/.." || exit 2
 TIER="${3:-quick}"
 # inside `vp run --with-repo` use the repository snapshot (so that edits to /repo made meanwhile do not leak in)
 if [ -n "${VP_RUN_REPO:-}" ] && [ -d "$VP_RUN_REPO" ]; then sed -i "s|path = \"/repo\"|path = \"$VP_RUN_REPO\"|" sim/Cargo.toml; echo "using repo snapshot $VP_RUN_REPO"; fi
-IDS=$(python3 -c "import json; print(' '.join(c['property_id'] for c in json.load(open('MANIFEST.json'))['checks']))")
+IDS="${SWEEP_IDS:-$(python3 -c "import json; print(' '.join(c['property_id'] for c in json.load(open('MANIFEST.json'))['checks']))")}"
 BAD=0
 for s in $(seq "$1" "$2"); do
   for id in $IDS; do
